@@ -1,7 +1,356 @@
-(* Lemmas about Model/Sample.v (C14). *)
-From Coq Require Import List Arith Lia PeanoNat ZArith Bool Permutation.
+(* Lemmas about Model/Sample.v (C14), part 1: the samplers that read a TT-tensor
+   (sample, sample_square).  Integer samplers are in Proofs/SampleIntP.v. *)
+From Coq Require Import List Arith Lia Ring PeanoNat ZArith Bool Permutation.
 From TV Require Import Num.Ops Lin.Tab Lin.BigSum TT.Chain Model.Sample.
 Import ListNotations.
 
-Lemma transpose_length {A} (d0 : A) m cols : length (transpose d0 m cols) = m.
-Proof. apply tab_length. Qed.
+(* ---------- result plumbing ---------- *)
+Lemma rbind_ok {A B} (r : result A) (f : A -> result B) y :
+  rbind r f = Ok y -> exists x, r = Ok x /\ f x = Ok y.
+Proof. destruct r; simpl; intros H; [eauto|discriminate]. Qed.
+Lemma rmap_ok {A B} (f : A -> B) r y : rmap f r = Ok y -> exists x, r = Ok x /\ y = f x.
+Proof. destruct r; simpl; intros H; inversion H; eauto. Qed.
+Lemma rall_ok {A} (l : list (result A)) rows : rall l = Ok rows ->
+  length rows = length l /\ forall j dr d, j < length l -> nth j l dr = Ok (nth j rows d).
+Proof.
+  revert rows; induction l as [|x l IH]; intros rows H; simpl in H.
+  - inversion H; subst. split; [reflexivity|]. intros; simpl in *; lia.
+  - apply rbind_ok in H as (a & -> & H). apply rbind_ok in H as (r & Hr & H). inversion H; subst.
+    destruct (IH _ Hr) as (L & N). split; [simpl; lia|].
+    intros [|j] dr d Hj; simpl; [reflexivity|]. apply N. simpl in Hj. lia.
+Qed.
+
+(* errors other than the out-of-fuel marker *)
+Definition no_oof {A} (r : result A) : Prop := r <> Err OutOfFuel.
+Lemma rbind_no_oof {A B} (r : result A) (f : A -> result B) :
+  no_oof r -> (forall x, no_oof (f x)) -> no_oof (rbind r f).
+Proof. unfold no_oof. destruct r; simpl; auto. intros H _ E. inversion E; subst. now apply H. Qed.
+Lemma rall_no_oof {A} (l : list (result A)) : Forall no_oof l -> no_oof (rall l).
+Proof.
+  induction 1 as [|x l Hx Hl IH]; simpl; [discriminate|].
+  apply rbind_no_oof; [exact Hx|]. intros a. apply rbind_no_oof; [exact IH|]. intros; discriminate.
+Qed.
+
+Section SampleP.
+Context {T : Type} (K : ops T).
+Notation "0" := (o0 K). Notation "1" := (o1 K).
+Infix "+" := (oadd K). Infix "*" := (omul K). Infix "-" := (osub K). Infix "/" := (odiv K).
+Hypothesis Rth : rng K.
+Add Ring RrSampleP : Rth.
+
+Local Notation cget := (cget K). Local Notation vstep := (vstep K). Local Notation run := (run K).
+Local Notation get := (get K). Local Notation bsum := (bsum K). Local Notation msum := (msum K).
+Local Notation lsum := (lsum K).
+
+(* v . w over the first r entries;  |v|^2 over the first r entries *)
+Definition dot (r : nat) (v w : list T) : T := bsum r (fun a => nth a v 0 * nth a w 0).
+Definition nrm2 (r : nat) (v : list T) : T := bsum r (fun a => nth a v 0 * nth a v 0).
+
+Lemma lsum_tab n f : lsum (tab n f) = bsum n f.
+Proof. unfold tab. symmetry. apply bsum_lsum. exact Rth. Qed.
+Lemma lsum_map_tab n (f : nat -> T) g : lsum (map g (tab n f)) = bsum n (fun i => g (f i)).
+Proof. rewrite map_tab. apply lsum_tab. Qed.
+
+(* ---------- right marginals: summing a chain over all its indices = contracting with np.sum(G, axis=1) ---------- *)
+Lemma sum_dot_vstep G v w :
+  bsum (cn G) (fun i => dot (cr2 G) (vstep v G i) w) = dot (cr1 G) v (rsum_step K G w).
+Proof.
+  unfold dot.
+  rewrite (bsum_ext K (cn G) _
+    (fun i => bsum (cr1 G) (fun a => bsum (cr2 G) (fun b => nth a v 0 * cget G a i b * nth b w 0)))).
+  2:{ intros i Hi.
+      rewrite (bsum_ext K (cr2 G) _ (fun b => bsum (cr1 G) (fun a => nth a v 0 * cget G a i b * nth b w 0))).
+      2:{ intros b Hb. rewrite nth_vstep by auto. now rewrite <- bsum_mul_r by auto. }
+      now rewrite bsum_swap by auto. }
+  rewrite bsum_swap by auto.
+  apply bsum_ext; intros a Ha. unfold rsum_step. rewrite nth_tab by auto.
+  rewrite <- bsum_mul_l by auto. rewrite bsum_swap by auto. apply bsum_ext; intros b Hb.
+  rewrite (bsum_ext K (cn G) _ (fun i => (nth a v 0 * nth b w 0) * cget G a i b)) by (intros; ring).
+  rewrite bsum_mul_l by auto. ring.
+Qed.
+
+Lemma phis_cons (Y : list (core T)) : phis K Y = hd [] (phis K Y) :: tl (phis K Y).
+Proof. destruct Y; reflexivity. Qed.
+Lemma tl_phis G (Y : list (core T)) : tl (phis K (G :: Y)) = phis K Y.
+Proof. reflexivity. Qed.
+Lemma hd_phis G (Y : list (core T)) : hd [] (phis K (G :: Y)) = rsum_step K G (hd [] (phis K Y)).
+Proof. reflexivity. Qed.
+
+(* the lemma the telescoping rests on (a suffix version of "sum Y = msum (shape Y) (get Y)") *)
+Lemma marg_right Ys : forall r v, chain r Ys 1 -> length v = r ->
+  msum (shape Ys) (fun idx => nth O (run v Ys idx) 0) = dot r v (hd [] (phis K Ys)).
+Proof.
+  induction Ys as [|G Ys IH]; intros r v Hc L.
+  - simpl in Hc. subst r. cbn. unfold dot. simpl. ring.
+  - destruct Hc as [Hr Hc]. cbn [shape map]. cbn [Chain.msum]. rewrite hd_phis. subst r.
+    rewrite <- sum_dot_vstep. apply bsum_ext; intros i Hi. cbn [Chain.run].
+    apply (IH (cr2 G)); [exact Hc | apply vstep_length].
+Qed.
+
+(* one row of einsum('ma,aib,b->mi') is the family of dot products of the advanced row with phi[i+1] *)
+Lemma nth_pvec v G w i : i < cn G -> nth i (pvec K v G w) 0 = dot (cr2 G) (vstep v G i) w.
+Proof.
+  intros Hi. unfold pvec. rewrite nth_tab by auto. unfold dot.
+  rewrite bsum_swap by auto. apply bsum_ext; intros b Hb. rewrite nth_vstep by auto.
+  now rewrite <- bsum_mul_r by auto.
+Qed.
+Lemma pvec_length v G w : length (pvec K v G w) = cn G. Proof. apply tab_length. Qed.
+Lemma lsum_pvec v G w : lsum (pvec K v G w) = dot (cr1 G) v (rsum_step K G w).
+Proof.
+  rewrite <- sum_dot_vstep. unfold pvec at 1. rewrite lsum_tab. apply bsum_ext; intros i Hi.
+  rewrite <- nth_pvec by auto. unfold pvec. now rewrite nth_tab by auto.
+Qed.
+(* the first core: row vector [1] *)
+Lemma vstep_one G i : cr1 G = 1%nat -> vstep [1] G i = crow K G i.
+Proof.
+  intros H. unfold Chain.vstep, crow. apply tab_ext; intros b Hb. rewrite H. simpl. ring.
+Qed.
+Lemma pvec0_pvec G w : cr1 G = 1%nat -> pvec0 K G w = pvec K [1] G w.
+Proof.
+  intros H. unfold pvec0, pvec. apply tab_ext; intros i Hi. rewrite H. simpl.
+  rewrite (bsum_ext K (cr2 G) _ (fun b => 1 * cget G O i b * nth b w 0)) by (intros; ring).
+  ring_simplify. apply bsum_ext; intros; ring.
+Qed.
+
+
+(* ---------- laws of the number structure used from here on (hypotheses; Qc and R satisfy them) ---------- *)
+Hypothesis Hdiv : forall a b, a / b = a * (1 / b).
+Hypothesis Hinv : forall b, b <> 0 -> b * (1 / b) = 1.
+Hypothesis Heqb : forall a b, oeqb K a b = true <-> a = b.
+
+Lemma div_mul_cancel a s : s <> 0 -> (a / s) * s = a.
+Proof. intros H. rewrite Hdiv. transitivity (a * (s * (1 / s))); [ring|]. rewrite Hinv by auto. ring. Qed.
+Lemma div_0_l s : 0 / s = 0. Proof. rewrite Hdiv. ring. Qed.
+
+Lemma normalise_ok p q : normalise K p = Ok q -> lsum p <> 0 /\ q = map (fun x => x / lsum p) p.
+Proof.
+  unfold normalise. destruct (oeqb K (lsum p) 0) eqn:E; [discriminate|]. intros H; inversion H; subst.
+  split; auto. intros Hs. apply Heqb in Hs. congruence.
+Qed.
+Lemma normalise_no_oof p : no_oof (normalise K p).
+Proof. unfold normalise, no_oof. destruct (oeqb K (lsum p) 0); discriminate. Qed.
+Lemma nth_map0 (g : T -> T) l i : g 0 = 0 -> nth i (map g l) 0 = g (nth i l 0).
+Proof. intros E. transitivity (nth i (map g l) (g 0)); [now rewrite E | apply map_nth]. Qed.
+Lemma nth_normalised p i : nth i (map (fun x => x / lsum p) p) 0 = nth i p 0 / lsum p.
+Proof. apply (nth_map0 (fun x => x / lsum p)). apply div_0_l. Qed.
+Lemma lsum_scaled p s : lsum (map (fun x => x / s) p) = lsum p * (1 / s).
+Proof. induction p as [|x p IH]; simpl; [ring|]. rewrite IH, Hdiv. ring. Qed.
+Lemma lsum_normalised p : lsum p <> 0 -> lsum (map (fun x => x / lsum p) p) = 1.
+Proof. intros H. rewrite lsum_scaled. now apply Hinv. Qed.
+Lemma lsum_nil_ne (p : list T) : lsum p <> 0 -> p <> [].
+Proof. intros H E. subst. now apply H. Qed.
+
+(* ---------- the loops: mode-major over rows = each row walked on its own ---------- *)
+Definition callno (base m k j : nat) : nat := (base + 1 + (k - 1) * m + j)%nat.
+Notation stepT := (nat -> @rowst T -> result (@rowst T)).
+Fixpoint walk (base m j k : nat) (steps : list stepT) (s : result (@rowst T))
+  : result (@rowst T) :=
+  match steps with
+  | [] => s
+  | st :: steps' => walk base m j (S k) steps' (rbind s (st (callno base m k j)))
+  end.
+Lemma modes_length base m (steps : list stepT) : forall k st, length st = m -> length (modes base m k steps st) = m.
+Proof. induction steps as [|s steps IH]; intros k st L; simpl; auto. apply IH. apply tab_length. Qed.
+Lemma modes_nth base m (steps : list stepT) : forall k st j, j < m -> length st = m ->
+  nth j (modes base m k steps st) (Err OtherError) = walk base m j k steps (nth j st (Err OtherError)).
+Proof.
+  induction steps as [|s steps IH]; intros k st j Hj L; simpl; auto.
+  rewrite IH; [|auto|apply tab_length]. f_equal. unfold mode_step. now rewrite nth_tab by auto.
+Qed.
+Lemma walk_err base m j (steps : list stepT) : forall k e, walk base m j k steps (Err e) = Err e.
+Proof. induction steps as [|s steps IH]; intros; simpl; auto. Qed.
+Lemma walk_no_oof base m j (steps : list stepT) : (forall st c s, In st steps -> no_oof (st c s)) ->
+  forall k s, no_oof s -> no_oof (walk base m j k steps s).
+Proof.
+  induction steps as [|st steps IH]; intros H k s Hs; simpl; auto.
+  apply IH; [intros; apply H; now right|]. apply rbind_no_oof; auto. intros x. apply H. now left.
+Qed.
+
+Definition rowst0 : @rowst T := mk_rowst [] [] [].
+
+(* ---------- sample: order laws ---------- *)
+Definition nn (x : T) : Prop := oleb K 0 x = true.
+Hypothesis Hnn0 : nn 0.
+Hypothesis Hnn_add : forall a b, nn a -> nn b -> nn (a + b).
+
+Lemma bsum_nn n f : (forall i, i < n -> nn (f i)) -> nn (bsum n f).
+Proof. induction n; intros H; simpl; [exact Hnn0|]. apply Hnn_add; [apply IHn; intros; apply H; lia | apply H; lia]. Qed.
+Lemma msum_nn ns : forall f, (forall idx, inb ns idx -> nn (f idx)) -> nn (msum ns f).
+Proof.
+  induction ns as [|n ns IH]; intros f H; simpl.
+  - apply H. constructor.
+  - apply bsum_nn. intros i Hi. apply IH. intros idx Hidx. apply H. constructor; auto.
+Qed.
+Lemma clip_nn p : Forall nn p -> clip K p = p.
+Proof. induction 1 as [|x p Hx Hp IH]; simpl; [reflexivity|]. unfold nn in Hx. rewrite Hx. f_equal. exact IH. Qed.
+
+(* rand.choice(n, p=p) returns an index below n = len(p) *)
+Variable ch : nat -> nat -> list T -> nat.
+Hypothesis Hch : forall c t p, p <> [] -> ch c t p < length p.
+
+(* the partial-product row v entering the cores Ys: all completions are non-negative *)
+Definition nn_tail (v : list T) (Ys : list (core T)) : Prop :=
+  forall idx, inb (shape Ys) idx -> nn (nth O (run v Ys idx) 0).
+
+Lemma pvec_nn v G Ys : chain (cr2 G) Ys 1 -> nn_tail v (G :: Ys) ->
+  Forall nn (pvec K v G (hd [] (phis K Ys))).
+Proof.
+  intros Hc Hn. apply Forall_forall. intros x Hx. unfold pvec in Hx. apply in_tab in Hx as (i & Hi & ->).
+  fold (pvec K v G (hd [] (phis K Ys))).
+  change (nn (nth i (tab (cn G) (fun i => bsum (cr1 G) (fun a => bsum (cr2 G) (fun b =>
+     nth a v 0 * cget G a i b * nth b (hd [] (phis K Ys)) 0)))) 0)) || idtac.
+  assert (E : bsum (cr1 G) (fun a => bsum (cr2 G) (fun b => nth a v 0 * cget G a i b * nth b (hd [] (phis K Ys)) 0))
+              = nth i (pvec K v G (hd [] (phis K Ys))) 0) by (unfold pvec; now rewrite nth_tab by auto).
+  rewrite E, nth_pvec by auto. rewrite <- (marg_right Ys (cr2 G)); [|exact Hc|apply vstep_length].
+  apply msum_nn. intros idx Hidx. apply (Hn (i :: idx)). constructor; auto.
+Qed.
+
+Lemma row_step_eq G w c s :
+  row_step K ch G w c s = rbind (normalise K (clip K (pvec K (rv s) G w))) (fun p =>
+    Ok (mk_rowst (vstep (rv s) G (ch c O p)) (ridx s ++ [ch c O p]) (rP s ++ [p]))).
+Proof. reflexivity. Qed.
+
+Lemma row_chain_sample base m j : forall Ys r v s0 k s1,
+  chain r Ys 1 -> length v = r -> rv s0 = v -> nn_tail v Ys ->
+  walk base m j k (zipw (row_step K ch) Ys (tl (phis K Ys))) (Ok s0) = Ok s1 ->
+  exists idx Pn, ridx s1 = ridx s0 ++ idx /\ rP s1 = rP s0 ++ Pn /\ inb (shape Ys) idx /\
+    length Pn = length Ys /\ Forall (fun p => lsum p = 1) Pn /\
+    lprod K (along 0 idx Pn) * dot r v (hd [] (phis K Ys)) = nth O (run v Ys idx) 0 /\
+    (Ys <> [] -> dot r v (hd [] (phis K Ys)) <> 0).
+Proof.
+  induction Ys as [|G Ys IH]; intros r v s0 k s1 Hc L Hv Hn Hw.
+  - simpl in Hw. inversion Hw; subst s1. exists [], []. rewrite !app_nil_r. repeat split; auto.
+    + constructor.
+    + simpl in Hc. subst r. unfold dot. simpl. ring.
+  - destruct Hc as [Hr Hc]. rewrite tl_phis in Hw. rewrite (phis_cons Ys) in Hw. cbn [zipw walk] in Hw.
+    set (w := hd [] (phis K Ys)) in *. cbn [rbind] in Hw. rewrite row_step_eq in Hw.
+    rewrite Hv in Hw.
+    assert (Hclip : clip K (pvec K v G w) = pvec K v G w) by (apply clip_nn, pvec_nn; auto).
+    rewrite Hclip in Hw.
+    destruct (normalise K (pvec K v G w)) as [p|e] eqn:En; [|cbn [rbind] in Hw; now rewrite walk_err in Hw].
+    cbn [rbind] in Hw. apply normalise_ok in En as [Hs Hp].
+    set (s := lsum (pvec K v G w)) in *.
+    assert (Hpl : length p = cn G) by (rewrite Hp, map_length; apply pvec_length).
+    assert (Hpne : p <> []).
+    { intros E. apply (lsum_nil_ne _ Hs). apply length_zero_iff_nil. rewrite pvec_length.
+      rewrite <- Hpl, E. reflexivity. }
+    set (i := ch (callno base m k j) O p) in *.
+    assert (Hi : i < cn G) by (rewrite <- Hpl; apply Hch; exact Hpne).
+    assert (Hn' : nn_tail (vstep v G i) Ys).
+    { intros idx Hidx. apply (Hn (i :: idx)). constructor; auto. }
+    destruct (IH (cr2 G) (vstep v G i) (mk_rowst (vstep v G i) (ridx s0 ++ [i]) (rP s0 ++ [p])) (S k) s1
+                 Hc (vstep_length _ _ _ _) eq_refl Hn' Hw)
+      as (idx & Pn & E1 & E2 & Hb & HL & HF & Hprod & _).
+    cbn [ridx rP] in E1, E2.
+    exists (i :: idx), (p :: Pn). rewrite <- !app_assoc in E1, E2. cbn [app] in E1, E2.
+    assert (Hsum : s = dot r v (hd [] (phis K (G :: Ys)))).
+    { unfold s. rewrite lsum_pvec, hd_phis. subst r. reflexivity. }
+    repeat split; auto.
+    + cbn [shape map]. constructor; auto.
+    + simpl. now rewrite HL.
+    + constructor; [|exact HF]. rewrite Hp. now apply lsum_normalised.
+    + cbn [along lprod fold_right Chain.run]. fold (lprod K (along 0 idx Pn)). rewrite <- Hsum.
+      assert (Hnp : forall t, t < cn G -> nth t p 0 = dot (cr2 G) (vstep v G t) w / s).
+      { intros t Ht. rewrite Hp. unfold s. rewrite nth_normalised. now rewrite nth_pvec. }
+      rewrite Hnp by auto. rewrite <- Hprod.
+      set (Mi := dot (cr2 G) (vstep v G i) w). set (L' := lprod K (along 0 idx Pn)).
+      transitivity (L' * ((Mi / s) * s)); [ring|]. rewrite div_mul_cancel by auto. ring.
+    + intros _. rewrite <- Hsum. exact Hs.
+Qed.
+
+
+(* ---------- sample: the theorem ---------- *)
+Definition total (Y : list (core T)) : T := msum (shape Y) (get Y).
+(* marginal of the first mode: sum of the entries with first index i0 *)
+Definition marg0 (Y : list (core T)) (i0 : nat) : T := msum (shape (tl Y)) (fun idx' => get Y (i0 :: idx')).
+
+Lemma nth_map_in {A B} (g : A -> B) l i d d' : i < length l -> nth i (map g l) d = g (nth i l d').
+Proof. intros H. rewrite (nth_indep _ d (g d')) by (now rewrite map_length). apply map_nth. Qed.
+Lemma lsum_map_add_const l u : lsum (map (fun x => x + u) l) = lsum l + bsum (length l) (fun _ => u).
+Proof. induction l as [|x l IH]; simpl; [ring|]. rewrite IH. ring. Qed.
+
+Lemma pvec1_marg0 G0 Y' i : cr1 G0 = 1%nat -> chain (cr2 G0) Y' 1 -> i < cn G0 ->
+  nth i (pvec K [1] G0 (hd [] (phis K Y'))) 0 = marg0 (G0 :: Y') i.
+Proof.
+  intros H1 Hc Hi. rewrite nth_pvec by auto.
+  rewrite <- (marg_right Y' (cr2 G0)); [|exact Hc|apply vstep_length]. reflexivity.
+Qed.
+Lemma total_dot G0 Y' : cr1 G0 = 1%nat -> chain (cr2 G0) Y' 1 ->
+  lsum (pvec K [1] G0 (hd [] (phis K Y'))) = total (G0 :: Y').
+Proof.
+  intros H1 Hc. rewrite lsum_pvec. unfold total. rewrite H1.
+  rewrite <- hd_phis. symmetry. apply (marg_right (G0 :: Y') 1%nat [1]); [split; auto|reflexivity].
+Qed.
+
+Theorem sample_spec Y m u II P :
+  chain 1 Y 1 -> (forall idx, inb (shape Y) idx -> nn (get Y idx)) -> nn u ->
+  sample K ch Y m u = Ok (II, P) ->
+  length II = m /\ length P = m /\
+  forall j, j < m ->
+    let idx := nth j II [] in let Pj := nth j P [] in
+    inb (shape Y) idx /\ length Pj = length Y /\ Forall (fun p => lsum p = 1) Pj /\
+    lprod K (along 0 idx Pj) * marg0 Y (hd O idx) =
+      ((marg0 Y (hd O idx) + u) / (total Y + bsum (hd O (shape Y)) (fun _ => u))) * get Y idx /\
+    (u = 0 -> lprod K (along 0 idx Pj) = get Y idx / total Y) /\
+    (tl Y <> [] -> marg0 Y (hd O idx) <> 0).
+Proof.
+  intros Hc Hnn Hu H. destruct Y as [|G0 Y']; [discriminate|]. destruct Hc as [H1 Hc].
+  unfold sample in H. set (w1 := hd [] (phis K Y')) in *.
+  apply rbind_ok in H as (p0 & Hp0 & H). rewrite (pvec0_pvec _ _ H1) in Hp0.
+  set (pv := pvec K [1] G0 w1) in *.
+  assert (Hpv : forall i, i < cn G0 -> nth i pv 0 = marg0 (G0 :: Y') i) by (intros; now apply pvec1_marg0).
+  assert (Hm0nn : forall i, i < cn G0 -> nn (marg0 (G0 :: Y') i)).
+  { intros i Hi. unfold marg0. apply msum_nn. intros idx Hidx. apply Hnn. constructor; auto. }
+  assert (Hclip : clip K (map (fun x => x + u) pv) = map (fun x => x + u) pv).
+  { apply clip_nn. apply Forall_forall. intros x Hx. apply in_map_iff in Hx as (y & <- & Hy).
+    apply Hnn_add; [|exact Hu]. unfold pv, pvec in Hy. apply in_tab in Hy as (i & Hi & ->).
+    specialize (Hpv i Hi). unfold pv, pvec in Hpv. rewrite nth_tab in Hpv by auto. rewrite Hpv. now apply Hm0nn. }
+  rewrite Hclip in Hp0. apply normalise_ok in Hp0 as [Hs Hp0].
+  set (q := map (fun x => x + u) pv) in *. set (s := lsum q) in *.
+  assert (Hsv : s = total (G0 :: Y') + bsum (cn G0) (fun _ => u)).
+  { unfold s, q. rewrite lsum_map_add_const. unfold pv, w1. rewrite total_dot by auto. now rewrite pvec_length. }
+  assert (Hql : length q = cn G0) by (unfold q; rewrite map_length; apply pvec_length).
+  assert (Hp0l : length p0 = cn G0) by (rewrite Hp0, map_length; exact Hql).
+  assert (Hp0ne : p0 <> []).
+  { intros E. apply (lsum_nil_ne _ Hs). apply length_zero_iff_nil. rewrite Hql, <- Hp0l, E. reflexivity. }
+  assert (Hnp0 : forall t, t < cn G0 -> nth t p0 0 = (marg0 (G0 :: Y') t + u) / s).
+  { intros t Ht. rewrite Hp0. fold s. unfold s. rewrite nth_normalised. fold s. f_equal.
+    unfold q. rewrite (nth_map_in _ _ _ _ 0) by (unfold pv; now rewrite pvec_length). now rewrite Hpv. }
+  apply rmap_ok in H as (rows & Hrows & E). inversion E; subst II P. clear E.
+  set (st0 := tab m (fun j => Ok (mk_rowst (crow K G0 (ch O j p0)) [ch O j p0] [p0]))) in *.
+  apply rall_ok in Hrows as [HL HN]. rewrite (modes_length _ _ _ _ st0) in HL, HN by apply tab_length.
+  rewrite !map_length. split; [exact HL|]. split; [exact HL|]. intros j Hj. cbv zeta.
+  specialize (HN j (Err OtherError) rowst0 Hj). rewrite modes_nth in HN by (auto; apply tab_length).
+  unfold st0 in HN. rewrite nth_tab in HN by auto.
+  set (i0 := ch O j p0) in *.
+  assert (Hi0 : i0 < cn G0) by (rewrite <- Hp0l; apply Hch; exact Hp0ne).
+  assert (Hnt : nn_tail (crow K G0 i0) Y').
+  { intros idx Hidx. rewrite <- (vstep_one _ _ H1). apply (Hnn (i0 :: idx)). constructor; auto. }
+  destruct (row_chain_sample O m j Y' (cr2 G0) (crow K G0 i0) (mk_rowst (crow K G0 i0) [i0] [p0]) 1%nat _
+                Hc (tab_length _ _) eq_refl Hnt HN)
+      as (idx & Pn & E1 & E2 & Hb & HLn & HF & Hprod & Hne).
+  cbn [ridx rP app] in E1, E2.
+  assert (EI : nth j (map ridx rows) [] = i0 :: idx)
+    by (change (@nil nat) with (ridx rowst0); rewrite map_nth; exact E1).
+  assert (EP : nth j (map rP rows) [] = p0 :: Pn)
+    by (change (@nil (list T)) with (rP rowst0); rewrite map_nth; exact E2).
+  rewrite EI, EP. repeat split.
+  - cbn [shape map]. constructor; auto.
+  - simpl. now rewrite HLn.
+  - constructor; [|exact HF]. rewrite Hp0. fold s. unfold s. now apply lsum_normalised.
+  - cbn [along lprod fold_right hd shape map]. fold (lprod K (along 0 idx Pn)). rewrite Hnp0 by auto.
+    rewrite <- Hsv. rewrite <- (vstep_one _ _ H1) in Hprod.
+    rewrite <- (nth_pvec _ _ _ _ Hi0) in Hprod. fold w1 pv in Hprod. rewrite Hpv in Hprod by auto.
+    change (get (G0 :: Y') (i0 :: idx)) with (nth O (run (vstep [1] G0 i0) Y' idx) 0). rewrite <- Hprod. ring.
+  - intros ->. cbn [along lprod fold_right hd]. fold (lprod K (along 0 idx Pn)). rewrite Hnp0 by auto.
+    rewrite <- (vstep_one _ _ H1) in Hprod.
+    rewrite <- (nth_pvec _ _ _ _ Hi0) in Hprod. fold w1 pv in Hprod. rewrite Hpv in Hprod by auto.
+    change (get (G0 :: Y') (i0 :: idx)) with (nth O (run (vstep [1] G0 i0) Y' idx) 0). rewrite <- Hprod.
+    assert (Es : s = total (G0 :: Y')) by (rewrite Hsv, bsum_0 by auto; ring). rewrite <- Es.
+    replace (marg0 (G0 :: Y') i0 + 0) with (marg0 (G0 :: Y') i0) by ring.
+    rewrite !(Hdiv _ s). ring.
+  - cbn [tl hd]. intros Hne'. specialize (Hne Hne'). rewrite <- (vstep_one _ _ H1) in Hne.
+    rewrite <- (nth_pvec _ _ _ _ Hi0) in Hne. fold w1 pv in Hne. now rewrite Hpv in Hne by auto.
+Qed.
+
+End SampleP.
